@@ -276,6 +276,9 @@ def check(prop: str, tier: str, batch_seed: int, repo: str, workers: int = 16,
                 print(f"KNOWN-FINDING: property={prop} {e['what']} "
                       f"[signature={json.dumps(e['signature'], sort_keys=True)} "
                       f"occurrences_in_this_run={cnt}]", flush=True)
+        focus = os.environ.get("VERIF_FOCUS")
+        if focus:
+            new_viols.sort(key=lambda kv: (focus not in kv[0], kv[0]))
         replays: List[str] = []
         reported_keys = set()
         max_report = M.get("max_reports", 6)
@@ -304,8 +307,9 @@ def check(prop: str, tier: str, batch_seed: int, repo: str, workers: int = 16,
             print(f"VIOLATION property={prop} replay={path}", flush=True)
             status = EXIT_VIOLATION
         if len(new_viols) > max_report:
-            print(f"[verif] {len(new_viols) - max_report} further violation classes not minimised: "
-                  + "; ".join(k for k, _ in new_viols[max_report:max_report + 10]), flush=True)
+            print(f"[verif] {len(new_viols) - max_report} further violation classes not minimised:", flush=True)
+            for k, e in new_viols[max_report:max_report + 300]:
+                print(f"[verif]   class {k} occurrences={e['count']} first_run_index={e['index']}", flush=True)
         total["new_violation_classes"] = len(new_viols)
         total["known_hits"] = {known[n]["what"]: c for n, c in known_hits.items()}
     except HarnessError as e:
